@@ -161,7 +161,7 @@ func genRetargetForks(t *rapid.T) sim.Case {
 }
 
 func TestRetargetForks(t *testing.T) {
-	pbt.Check(t, pbt.Cfg{Name: "retarget_forks", Quick: 96, Thorough: 3200}, func(r *pbt.Run) {
+	pbt.Check(t, pbt.Cfg{Name: "retarget_forks", Quick: 96, Thorough: 1600}, func(r *pbt.Run) {
 		c := genRetargetForks(r.T)
 		r.Case(c)
 		s, err := runOnTemplate(c, pbt.FindingOpen)
@@ -218,7 +218,7 @@ func TestTree(t *testing.T) {
 		p.Retarget = true
 		p.MaxTx, p.MaxOps = 12, 120
 	}
-	pbt.Check(t, pbt.Cfg{Name: "tree", Quick: 1500, Thorough: 40000}, func(r *pbt.Run) {
+	pbt.Check(t, pbt.Cfg{Name: "tree", Quick: 1500, Thorough: 8000}, func(r *pbt.Run) {
 		c := sim.GenCase(r.T, p)
 		r.Case(c)
 		s, err := sim.RunCaseOpen(c, env.Options{}, sim.Hooks{}, pbt.FindingOpen)
